@@ -22,7 +22,11 @@ Inductive ivar :=
 | VInd (i : nat)
 | VLevel0 (b : nat) | VLevel (b t : nat) | VChange (b t : nat)
 | VAux (o : owner) (k : nat)
-| VUser (n : nat).
+| VUser (n : nat)
+| VEquivObj | VEquivInd.                        (* EquivalentSingleObjective / Indicator_EquivalentIndicator *)
+
+(* uninterpreted Int -> Int functions of the concurrent buffers *)
+Inductive fname := FnUnload (b t : nat) | FnLoad (b t : nat).
 
 Inductive bvar :=
 | BSched (t : nat)
@@ -37,6 +41,7 @@ Scheme Equality for rref.
 Scheme Equality for owner.
 Scheme Equality for ivar.
 Scheme Equality for bvar.
+Scheme Equality for fname.
 
 (* ------------------------------------------------------------------ *)
 (* Terms and formulas *)
@@ -47,6 +52,7 @@ Inductive term :=
 | TDiv (a b : term) | TMod (a b : term)
 | TIte (c : form) (a b : term)
 | TSel (arr : nat) (i : term)                       (* select on the Int->Int array of buffer arr *)
+| TApp (f : fname) (a : term)                       (* application of an uninterpreted function *)
 with form :=
 | FT | FF | FB (b : bvar)
 | FLe (a b : term) | FLt (a b : term) | FGe (a b : term) | FGt (a b : term)
@@ -54,9 +60,15 @@ with form :=
 | FAnd (l : list form) | FOr (l : list form) | FNot (f : form)
 | FXor (a b : form) | FImp (a b : form) | FIte (c a b : form) | FIff (a b : form)
 | FPbLe (l : list form) (k : Z) | FPbGe (l : list form) (k : Z) | FPbEq (l : list form) (k : Z)
-| FArrFix (arr : nat) (i v : term).                 (* arr == Store(arr, i, v) *)
+| FArrFix (arr : nat) (i v : term)                  (* arr == Store(arr, i, v) *)
+| FFunPoint (f : fname) (t : term) (q : Z).         (* ForAll x. If(x == t, f(x) == q, f(x) == 0) *)
 
-Record env := { iv : ivar -> Z; bv : bvar -> bool; av : nat -> Z -> Z }.
+(* A function interpretation is a finite graph with default 0 (the quantified assertion forces
+   finite support, and z3 reports function interpretations in this form) *)
+Record env := { iv : ivar -> Z; bv : bvar -> bool; av : nat -> Z -> Z; fv : fname -> list (Z * Z) }.
+
+Fixpoint fapp (g : list (Z * Z)) (x : Z) : Z :=
+  match g with [] => 0 | (k, v) :: r => if k =? x then v else fapp r x end.
 
 Definition b2z (b : bool) : Z := if b then 1 else 0.
 
@@ -69,6 +81,7 @@ Fixpoint teval (e : env) (t : term) {struct t} : Z :=
   | TDiv a b => teval e a / teval e b | TMod a b => teval e a mod teval e b
   | TIte c a b => if feval e c then teval e a else teval e b
   | TSel arr i => av e arr (teval e i)
+  | TApp f a => fapp (fv e f) (teval e a)
   end
 with feval (e : env) (f : form) {struct f} : bool :=
   match f with
@@ -85,6 +98,9 @@ with feval (e : env) (f : form) {struct f} : bool :=
   | FPbGe l k => fold_right (fun f acc => b2z (feval e f) + acc) 0 l >=? k
   | FPbEq l k => fold_right (fun f acc => b2z (feval e f) + acc) 0 l =? k
   | FArrFix arr i v => av e arr (teval e i) =? teval e v
+  | FFunPoint f t q =>
+      (fapp (fv e f) (teval e t) =? q)
+      && forallb (fun kv => (fst kv =? teval e t) || (fapp (fv e f) (fst kv) =? 0)) (fv e f)
   end.
 
 Definition tsum (e : env) (l : list term) : Z := fold_right (fun t acc => teval e t + acc) 0 l.
@@ -108,6 +124,7 @@ Fixpoint tiv (t : term) : list ivar :=
   | TSub a b | TMul a b | TDiv a b | TMod a b => tiv a ++ tiv b
   | TIte c a b => fiv c ++ tiv a ++ tiv b
   | TSel _ i => tiv i
+  | TApp _ a => tiv a
   end
 with fiv (f : form) : list ivar :=
   match f with
@@ -117,6 +134,7 @@ with fiv (f : form) : list ivar :=
   | FNot g => fiv g | FXor a b | FImp a b | FIff a b => fiv a ++ fiv b
   | FIte c a b => fiv c ++ fiv a ++ fiv b
   | FArrFix _ i v => tiv i ++ tiv v
+  | FFunPoint _ t _ => tiv t
   end.
 Fixpoint tbv (t : term) : list bvar :=
   match t with
@@ -124,6 +142,7 @@ Fixpoint tbv (t : term) : list bvar :=
   | TSub a b | TMul a b | TDiv a b | TMod a b => tbv a ++ tbv b
   | TIte c a b => fbv c ++ tbv a ++ tbv b
   | TSel _ i => tbv i
+  | TApp _ a => tbv a
   end
 with fbv (f : form) : list bvar :=
   match f with
@@ -133,6 +152,7 @@ with fbv (f : form) : list bvar :=
   | FNot g => fbv g | FXor a b | FImp a b | FIff a b => fbv a ++ fbv b
   | FIte c a b => fbv c ++ fbv a ++ fbv b
   | FArrFix _ i v => tbv i ++ tbv v
+  | FFunPoint _ t _ => tbv t
   end.
 Fixpoint tarr (t : term) : list nat :=
   match t with
@@ -140,6 +160,7 @@ Fixpoint tarr (t : term) : list nat :=
   | TSub a b | TMul a b | TDiv a b | TMod a b => tarr a ++ tarr b
   | TIte c a b => farr c ++ tarr a ++ tarr b
   | TSel arr i => arr :: tarr i
+  | TApp _ a => tarr a
   end
 with farr (f : form) : list nat :=
   match f with
@@ -149,6 +170,25 @@ with farr (f : form) : list nat :=
   | FNot g => farr g | FXor a b | FImp a b | FIff a b => farr a ++ farr b
   | FIte c a b => farr c ++ farr a ++ farr b
   | FArrFix arr i v => arr :: tarr i ++ tarr v
+  | FFunPoint _ t _ => tarr t
+  end.
+Fixpoint tfn (t : term) : list fname :=
+  match t with
+  | TC _ | TV _ => [] | TAdd l => flat_map tfn l
+  | TSub a b | TMul a b | TDiv a b | TMod a b => tfn a ++ tfn b
+  | TIte c a b => ffn c ++ tfn a ++ tfn b
+  | TSel _ i => tfn i
+  | TApp f a => f :: tfn a
+  end
+with ffn (f : form) : list fname :=
+  match f with
+  | FT | FF | FB _ => []
+  | FLe a b | FLt a b | FGe a b | FGt a b | FEq a b | FNe a b => tfn a ++ tfn b
+  | FAnd l | FOr l | FPbLe l _ | FPbGe l _ | FPbEq l _ => flat_map ffn l
+  | FNot g => ffn g | FXor a b | FImp a b | FIff a b => ffn a ++ ffn b
+  | FIte c a b => ffn c ++ ffn a ++ ffn b
+  | FArrFix _ i v => tfn i ++ tfn v
+  | FFunPoint f t _ => f :: tfn t
   end.
 
 (* ------------------------------------------------------------------ *)
@@ -203,6 +243,12 @@ Definition show_ivar x := match x with
  | VChange b t => "B" ++ show_nat b ++ "_sc_time_" ++ show_task t
  | VAux o k => show_owner o ++ "_aux_" ++ show_nat k
  | VUser n => "u" ++ show_nat n
+ | VEquivObj => "EquivalentSingleObjective"
+ | VEquivInd => "Indicator_EquivalentIndicator"
+ end.
+Definition show_fname f := match f with
+ | FnUnload b t => "B" ++ show_nat b ++ "_" ++ show_task t ++ "_quantity_unloading"
+ | FnLoad b t => "B" ++ show_nat b ++ "_" ++ show_task t ++ "_quantity_loading"
  end.
 Definition show_bvar b := match b with
  | BSched t => show_task t ++ "_scheduled"
@@ -224,6 +270,7 @@ Fixpoint show_t (t : term) : string :=
   | TDiv a b => app1 "div" [show_t a; show_t b] | TMod a b => app1 "mod" [show_t a; show_t b]
   | TIte c a b => app1 "ite" [show_f c; show_t a; show_t b]
   | TSel arr i => app1 "select" [show_arr arr; show_t i]
+  | TApp f a => app1 (show_fname f) [show_t a]
   end
 with show_f (f : form) : string :=
   match f with
@@ -241,9 +288,14 @@ with show_f (f : form) : string :=
   | FPbGe l k => app1 ">=" [app1 "+" ("0" :: map (fun f => app1 "ite" [show_f f; "1"; "0"]) l); show_Z k]
   | FPbEq l k => app1 "=" [app1 "+" ("0" :: map (fun f => app1 "ite" [show_f f; "1"; "0"]) l); show_Z k]
   | FArrFix arr i v => app1 "=" [show_arr arr; app1 "store" [show_arr arr; show_t i; show_t v]]
+  | FFunPoint f t q =>
+      "(forall ((qx Int)) " ++ app1 "ite" [app1 "=" ["qx"; show_t t];
+                                            app1 "=" [app1 (show_fname f) ["qx"]; show_Z q];
+                                            app1 "=" [app1 (show_fname f) ["qx"]; "0"]] ++ ")"
   end.
 
 Definition show_decl_i (x : ivar) : string := "(declare-const " ++ show_ivar x ++ " Int)".
 Definition show_decl_b (x : bvar) : string := "(declare-const " ++ show_bvar x ++ " Bool)".
 Definition show_decl_a (a : nat) : string := "(declare-const " ++ show_arr a ++ " (Array Int Int))".
+Definition show_decl_f (f : fname) : string := "(declare-fun " ++ show_fname f ++ " (Int) Int)".
 Close Scope string_scope.
